@@ -6,8 +6,10 @@ from ..flow import expr, resolve_place, arg_place, writes_to_field, TRANSPARENT_
 from ..mir import op_place
 
 CLAIM = {
-    "text": "Structural clauses of C09 decided on MIR: (a) TerminalWriter touches the surface only through the bounds-checked get_mut(pos) and one fill "
-            "loop whose row/col ranges are 0..width and start.row..min(cursor.row+1, height) over shape.offset (containment, with C07's Shape lemma); "
+    "text": "Structural clauses of C09 decided on MIR (bodies are read with small private single-caller helpers expanded in place, closures count for the "
+            "function that builds them): (a) TerminalWriter touches the surface only through the bounds-checked get_mut(pos) and accesses to data_mut() "
+            "indexed by shape.offset(Position::new(row, col)) with row drawn from a range ending at most at shape.height and col from a range ending at most "
+            "at shape.width (containment, with C07's Shape lemma); "
             "(b) the three io::Write adapters feed the written buffer through one Cursor to a stateful decoder kept in `self`, forward every decoded "
             "item, and return cursor.position() (or buf.len() only where the sink reported it is full) — with C03's fold theorem the produced cells "
             "do not depend on how bytes are split across writes; (c) measuring (Text/str layout) and writing (put_cell) call the same Cell::layout "
@@ -177,6 +179,208 @@ class WrapsFlow:
                 self.opaque.append((sorted(wargs.values())[0], chain + (nm,), site, nm))
 
 
+def _calls_x(body):
+    """call sites of a (possibly inlined) body: real call terminators plus the call sites `prog.inlined` expanded in place
+    (a `goto` carrying `inl_call`; its arguments are the `inl_arg` assignments the inliner appended to that block)"""
+    for bb, t in body.calls():
+        yield bb, t
+    for bb, blk in enumerate(body.blocks):
+        t = blk["term"]
+        if t["k"] == "goto" and t.get("inl_call") and not blk["cleanup"]:
+            args = [s_["rv"]["a"] for s_ in blk["stmts"] if s_.get("inl_arg") == t["inl_call"]]
+            yield bb, {"k": "call", "fn": {"path": t["inl_call"], "resolved": t["inl_call"], "local": True}, "args": args,
+                       "line": t.get("line", 0), "t": t["t"], "inl": True}
+
+
+def _inlined_into(prog):
+    """helper path -> set of bodies (roots or closures) it was expanded into by prog.inlined"""
+    m = prog.__dict__.get("_c09_inl_into")
+    if m is None:
+        m = {}
+        for b in prog.bodies:
+            if not b.file.startswith("src/") or len(prog.by_path[b.path]) != 1:
+                continue
+            bi = prog.inlined(b.path)
+            if bi is None or bi is b:
+                continue
+            for blk in bi.blocks:
+                if blk.get("inl_from"):
+                    m.setdefault(blk["inl_from"], set()).add(b.path)
+        prog.__dict__["_c09_inl_into"] = m
+    return m
+
+
+def _root_of(prog, b):
+    return b.closure_root or b.path
+
+
+def _upvar_env(prog, b):
+    """for a closure body: {'arg1.<k>': term of the k-th capture in the (inlined) parent's vocabulary}"""
+    up = {}
+    if b.kind != "Closure":
+        return up
+    for pp in (b.j.get("closure_parent"), b.closure_root):
+        parent = (prog.inlined(pp) or prog.body(pp)) if pp else None
+        if parent is None:
+            continue
+        for i, si, s in parent.assigns():
+            rv = s["rv"]
+            if rv["k"] == "agg" and rv["ak"] == "closure" and rv["def"] == b.path:
+                for k, f in enumerate(rv["fields"]):
+                    up["arg1.%d" % k] = expr(parent, f)
+        if up:
+            break
+    return up
+
+
+def _bool_test(body, call_bb, t):
+    """(switch_bb, true_target, false_target) of the branch that consumes the bool result of call `t`: the first switch reached from the
+    call's continuation along straight-line code whose discriminant is the result itself, a copy of it or its negation (`let full = !r; if full`)"""
+    alias = {t["dest"]["l"]: True} if not t["dest"]["p"] else {}
+    bb, seen = t["t"], set()
+    while bb is not None and bb >= 0 and bb not in seen:
+        seen.add(bb)
+        blk = body.blocks[bb]
+        for s in blk["stmts"]:
+            if s["k"] != "assign" or s["place"]["p"]:
+                continue
+            rv, l = s["rv"], s["place"]["l"]
+            src = None
+            if rv["k"] == "use" and rv["a"]["k"] in ("copy", "move") and not rv["a"]["place"]["p"]:
+                src = (rv["a"]["place"]["l"], True)
+            elif rv["k"] == "un" and rv["op"] == "Not" and rv["a"]["k"] in ("copy", "move") and not rv["a"]["place"]["p"]:
+                src = (rv["a"]["place"]["l"], False)
+            if src is not None and src[0] in alias:
+                alias[l] = alias[src[0]] == src[1]
+            else:
+                alias.pop(l, None)
+        tt = blk["term"]
+        if tt["k"] == "goto":
+            bb = tt["t"]
+            continue
+        if tt["k"] == "switch":
+            dl = op_local(tt["d"])
+            if dl in alias and tt["vals"] == ["0"]:
+                tr, fa = tt["otherwise"], tt["targets"][0]
+                return (bb, tr, fa) if alias[dl] else (bb, fa, tr)
+        return None
+    return None
+
+
+def _ret_sources(body):
+    """what the return value is made of: ('const', bb, int) / ('call', bb, term) / ('other', bb, rv), through moves of whole locals
+    (an inlined helper returns through `dest = move _ret`)"""
+    out, seen, work = [], set(), [0]
+    while work:
+        l = work.pop()
+        if l in seen:
+            continue
+        seen.add(l)
+        for bb, si, rv in body.defs_of(l):
+            if body.blocks[bb]["cleanup"]:
+                continue
+            if si == "term":
+                out.append(("call", bb, rv))
+            elif rv["k"] == "use" and rv["a"]["k"] == "const" and "int" in rv["a"]["c"]:
+                out.append(("const", bb, int(rv["a"]["c"]["int"])))
+            elif rv["k"] == "use" and rv["a"]["k"] in ("copy", "move") and not rv["a"]["place"]["p"] and rv["a"]["place"]["l"] > body.arg_count:
+                work.append(rv["a"]["place"]["l"])
+            else:
+                out.append(("other", bb, rv))
+    return out
+
+
+# ---- tiny reader of canonical terms (sa.flow.expr strings) ---------------------------------------------------------
+def _split_top(s_, sep=","):
+    args, depth, cur = [], 0, ""
+    for ch in s_:
+        if ch in "([{":
+            depth += 1
+        elif ch in ")]}":
+            depth -= 1
+        if ch == sep and depth == 0:
+            args.append(cur.strip())
+            cur = ""
+        else:
+            cur += ch
+    if cur.strip() or args:
+        args.append(cur.strip())
+    return args
+
+
+def _app(e):
+    """`head(a, b)suffix` -> (head, [a, b], suffix); `Range{start: a, end: b}` -> ('Range', [a, b], suffix); None for atoms"""
+    m = re.match(r"^([\w:<>&' ]+?)([({])", e)
+    if not m:
+        return None
+    open_, close = m.group(2), ")" if m.group(2) == "(" else "}"
+    depth, j = 0, None
+    for i in range(m.end() - 1, len(e)):
+        if e[i] in "([{":
+            depth += 1
+        elif e[i] in ")]}":
+            depth -= 1
+            if depth == 0:
+                j = i
+                break
+    if j is None or e[j] != close:
+        return None
+    args = _split_top(e[m.end():j])
+    if open_ == "{":
+        args = [re.sub(r"^\w+:\s*", "", a) for a in args]
+    return m.group(1), args, e[j + 1:]
+
+
+def _range_item(e):
+    """for the item of a `for x in A..B` walk (also reversed / through into_iter): (A, B); None when `e` is not such an item"""
+    a = _app(e)
+    if not a or a[2] != "@Some.0" or not re.search(r"(^|::)(next|next_back)$", a[0]) or len(a[1]) != 1:
+        return None
+    it = a[1][0]
+    while True:
+        w = _app(it)
+        if w and w[2] == "" and len(w[1]) == 1 and re.search(r"(^|::)(into_iter|rev|by_ref)$", w[0]):
+            it = w[1][0]
+            continue
+        break
+    w = _app(it)
+    if w and w[0] == "Range" and w[2] == "" and len(w[1]) == 2:
+        return w[1][0], w[1][1]
+    return None
+
+
+def _at_most(e, dim):
+    """is the term `e` bounded above by the term `dim` (equal, or a minimum one of whose operands is)"""
+    if e == dim:
+        return True
+    a = _app(e)
+    if a and a[2] == "" and len(a[1]) == 2 and re.search(r"(^|::)min$", a[0]):
+        return _at_most(a[1][0], dim) or _at_most(a[1][1], dim)
+    return False
+
+
+def _contained_index(ie, le):
+    """`ie` indexes storage `le` inside the writer's window: data_mut(self.surf)[shape.offset(Position::new(row, col))] with row drawn from a
+    range that ends at most at shape.height and col from a range that ends at most at shape.width (shape = self.surf.shape())"""
+    if "SurfaceMut::data_mut(arg1.surf)" not in le:
+        return False, "indexed storage is not data_mut(self.surf)"
+    o = _app(ie)
+    if not o or o[0] != "Shape::offset" or o[2] != "" or len(o[1]) != 2:
+        return False, "index is not shape.offset(..)"
+    sh, p = o[1]
+    if not re.fullmatch(r"(Surface|SurfaceMut)::shape\(arg1\.surf\)", sh):
+        return False, "offset of a shape other than self.surf.shape()"
+    pn = _app(p)
+    if not pn or pn[0] != "Position::new" or pn[2] != "" or len(pn[1]) != 2:
+        return False, "position is not Position::new(row, col)"
+    rows, cols = _range_item(pn[1][0]), _range_item(pn[1][1])
+    if rows is None or not _at_most(rows[1], sh + ".height"):
+        return False, "row is not drawn from a range ending at most at shape.height"
+    if cols is None or not _at_most(cols[1], sh + ".width"):
+        return False, "column is not drawn from a range ending at most at shape.width"
+    return True, ""
+
+
 SURF_MUTATORS = r"^surface::SurfaceMut::(get_mut|data_mut|iter_mut|fill|fill_with|clear|insert|set|view_mut|as_mut)$|<.* as surface::SurfaceMut>::(get_mut|data_mut|iter_mut|fill|fill_with|clear|insert|set|view_mut|as_mut)$"
 
 
@@ -188,7 +392,7 @@ def run(ctx):
     # ---------------- (b) writer fold ------------------------------------------------------------------
     ctx.rule("WRITER-FOLD", "io::Write adapters: one Cursor over buf, decoder state in self, every item forwarded, returns cursor.position()", floor=9)
     for path, dec_rx, may_fill in WRITERS:
-        b = prog.body(path)
+        b = prog.inlined(path) if prog.body(path) is not None else None
         if b is None:
             ctx.anchor("WRITER-FOLD", path)
             continue
@@ -226,8 +430,8 @@ def run(ctx):
                 break
             for bb, t in b.calls():
                 if call_matches(t, r"render::CellWrite::put_char$"):
-                    tt = b.blocks[t["t"]]["term"]
-                    if tt["k"] == "switch" and tt["vals"] == ["0"] and cfg.edge_dominates(t["t"], tt["targets"][0], i):
+                    bt = _bool_test(b, bb, t)
+                    if bt is not None and cfg.edge_dominates(bt[0], bt[2], i):
                         ok3 = True
         ctx.instance("WRITER-FOLD", {"fn": path, "hyp": "returns cursor.position(); buf.len() only on the sink-full edge", "returns": [r[1] for r in rets], "ok": ok2 and ok3})
         if not (ok2 and ok3):
@@ -245,40 +449,43 @@ def run(ctx):
     # ---------------- (a) containment ---------------------------------------------------------------------
     ctx.rule("CONTAIN", "TerminalWriter mutates its surface only via get_mut(pos) and the cursor-fill loop over shape.offset within 0..width x start.row..min(cursor.row+1,height)", floor=3)
     tw_bodies = [b for b in prog.bodies if (b.impl_self or "").startswith("render::TerminalWriter") or b.path.startswith("render::TerminalWriter")]
-    muts = []
+    tw_paths = {b.path for b in tw_bodies}
+    inl_into = _inlined_into(prog)
+    PC = "<render::TerminalWriter<'_> as render::CellWrite>::put_cell"
+    allowed = {(PC, "get_mut"), (PC, "data_mut"), ("render::TerminalWriter::<'a>::new", "as_mut")}
     for b in tw_bodies:
-        for bb, t in b.calls():
-            if call_matches(t, SURF_MUTATORS) and t["args"] and expr(b, t["args"][0]) in ("arg1.surf", "arg2"):
-                muts.append((b, bb, t))
-    allowed = {("<render::TerminalWriter<'_> as render::CellWrite>::put_cell", "get_mut"),
-               ("<render::TerminalWriter<'_> as render::CellWrite>::put_cell", "data_mut"),
-               ("render::TerminalWriter::<'a>::new", "as_mut")}
-    for b, bb, t in muts:
-        nm = callee_name(t).split("::")[-1]
-        ok = (b.path, nm) in allowed
-        ctx.instance("CONTAIN", {"fn": b.path, "op": nm, "allowed": ok})
-        if not ok:
-            ctx.violation("CONTAIN", b.path, nm, "TerminalWriter mutates its surface through %s outside the audited sites" % nm, sites=["%s:%d" % (b.file, t["line"])])
-    pc = prog.body("<render::TerminalWriter<'_> as render::CellWrite>::put_cell")
+        # a helper that is expanded into other TerminalWriter bodies is judged there (its sites belong to the function it was extracted from)
+        if inl_into.get(b.path) and inl_into[b.path] <= tw_paths:
+            continue
+        bi = prog.inlined(b.path) or b
+        for bb, t in bi.calls():
+            if call_matches(t, SURF_MUTATORS) and t["args"] and expr(bi, t["args"][0]) in ("arg1.surf", "arg2"):
+                nm = callee_name(t).split("::")[-1]
+                owner = bi.blocks[bb].get("inl_from") or b.path
+                ok = (b.path, nm) in allowed or (_root_of(prog, b), nm) in allowed or (owner, nm) in allowed
+                ctx.instance("CONTAIN", {"fn": b.path, "op": nm, "allowed": ok, "in_helper": owner if owner != b.path else None})
+                if not ok:
+                    ctx.violation("CONTAIN", b.path, nm, "TerminalWriter mutates its surface through %s outside the audited sites" % nm, sites=["%s:%d" % (b.file, t["line"])])
+    pc = prog.inlined(PC) if prog.body(PC) is not None else None
     if pc is None:
         ctx.anchor("CONTAIN", "TerminalWriter::put_cell")
     else:
+        # every access to the raw storage handed out by data_mut: `data[i]` (BoundsCheck) and slice get/get_mut(i)
         idx = []
         for bb, t in pc.terms():
             if t["k"] == "assert" and t["msg"]["kind"] == "BoundsCheck":
                 idx.append((bb, t, expr(pc, t["msg"]["index"]), expr(pc, t["msg"]["len"])))
-        pat = re.compile(r"^Shape::offset\((?P<sh>.*?), Position::new\(range::next\(IntoIterator::into_iter\(Range\{start: (?P<r0>.*?), end: (?P<r1>.*?)\}\)\)@Some\.0, range::next\(IntoIterator::into_iter\(Range\{start: 0, end: (?P<w>.*?)\}\)\)@Some\.0\)\)$")
+            elif t["k"] == "call" and call_matches(t, r"slice::<impl \[T\]>::(get|get_mut|get_unchecked|get_unchecked_mut|swap)$|ops::Index(Mut)?>?::index(_mut)?$") and len(t["args"]) >= 2:
+                idx.append((bb, t, expr(pc, t["args"][1]), expr(pc, t["args"][0])))
         n = 0
         for bb, t, ie, le in idx:
-            if "Shape::offset" not in ie:
+            if "SurfaceMut::data_mut(arg1.surf)" not in le and "Shape::offset" not in ie:
                 continue
             n += 1
-            m = pat.match(ie)
-            ok = bool(m) and m.group("w") == m.group("sh") + ".width" and re.match(r"^cmp::min\(Add\(arg1\.cursor\.row, 1\), %s\.height\)$" % re.escape(m.group("sh")), m.group("r1")) is not None \
-                and "SurfaceMut::data_mut(arg1.surf)" in le and "shape(arg1.surf)" in m.group("sh")
+            ok, why = _contained_index(ie, le)
             ctx.instance("CONTAIN", {"fn": pc.path, "index": ie[:200], "len": le[:80], "ok": ok})
             if not ok:
-                ctx.violation("CONTAIN", pc.path, "fill-loop", "the cursor-fill loop indexes the surface data outside rows start..min(cursor.row+1, height) x cols 0..width: %s" % ie[:200], sites=["%s:%d" % (pc.file, t["line"])])
+                ctx.violation("CONTAIN", pc.path, "fill-loop", "the cursor-fill loop indexes the surface data outside rows start..min(cursor.row+1, height) x cols 0..width (%s): %s" % (why, ie[:200]), sites=["%s:%d" % (pc.file, t["line"])])
         if n == 0:
             ctx.anchor("CONTAIN", "put_cell/fill-loop")
         # get_mut receives the position returned by Cell::layout
@@ -290,39 +497,35 @@ def run(ctx):
 
     # ---------------- (c) shared layout routine -------------------------------------------------------------
     ctx.rule("SHARED-LAYOUT", "Cell::layout is the only cell placement routine: called by put_cell (writing) and the Text/str layout closures (measuring) with corresponding arguments", floor=3)
-    callers = {}
+    # call sites of Cell::layout, attributed to the function they belong to: closures count for the function that builds them, small private
+    # single-caller helpers for the function they were extracted from (prog.inlined); argument terms are in that function's vocabulary
+    callers = {}      # root path -> [(site body path, [argument terms])]
     for b in prog.bodies:
-        for bb, t in b.calls():
-            if call_matches(t, r"^render::Cell::layout$"):
-                up = {}
-                if b.kind == "Closure":
-                    parent = prog.body(b.j.get("closure_parent") or "") or prog.body(b.closure_root)
-                    if parent is not None:
-                        for i, si, s in parent.assigns():
-                            rv = s["rv"]
-                            if rv["k"] == "agg" and rv["ak"] == "closure" and rv["def"] == b.path:
-                                for k, f in enumerate(rv["fields"]):
-                                    up["arg1.%d" % k] = expr(parent, f)
-                args = []
-                for a in t["args"]:
-                    e = expr(b, a)
-                    for k in sorted(up, key=len, reverse=True):
-                        e = e.replace(k, up[k])
-                    args.append(e)
-                callers[b.path] = args
+        if not b.file.startswith("src/") or len(prog.by_path[b.path]) != 1 or inl_into.get(b.path):
+            continue       # (an expanded helper is seen inside its caller)
+        bi = prog.inlined(b.path) or b
+        up = None
+        for bb, t in bi.calls():
+            if not call_matches(t, r"^render::Cell::layout$"):
+                continue
+            if up is None:
+                up = _upvar_env(prog, b)
+            args = [re.sub(r"\barg1\.\d+\b", lambda m: up.get(m.group(0), m.group(0)), expr(bi, a)) for a in t["args"]]
+            callers.setdefault(_root_of(prog, b), []).append((b.path, args))
     exp = {
-        "<render::TerminalWriter<'_> as render::CellWrite>::put_cell": {"width": r"^TerminalWriter::size\(arg1\)\.width$", "wraps": r"^arg1\.wraps$"},
-        "<view::text::Text as view::View>::layout::{closure#0}": {"width": r"max\(\)?.*width|\.max.*width|width", "wraps": r"wraps"},
-        "view::text::<impl view::View for str>::layout::{closure#0}": {"width": r"width", "wraps": r"^1$"},
+        PC: {"width": r"^TerminalWriter::size\(arg1\)\.width$", "wraps": r"^arg1\.wraps$"},
+        "<view::text::Text as view::View>::layout": {"width": r"^arg3\.max\.width$", "wraps": r"^arg1\.wraps$"},
+        "view::text::<impl view::View for str>::layout": {"width": r"^arg3\.max\.width$", "wraps": r"^1$"},
     }
-    for p, args in sorted(callers.items()):
+    for p, sites in sorted(callers.items()):
         e = exp.get(p)
-        ctx.instance("SHARED-LAYOUT", {"caller": p, "args": [a[:70] for a in args], "expected_caller": e is not None})
-        if e is None:
-            ctx.violation("SHARED-LAYOUT", p, "caller", "Cell::layout is called from an unaudited place: measuring and writing may diverge", sites=[])
-            continue
-        if not re.search(e["width"], args[2]) or not re.search(e["wraps"], args[3]):
-            ctx.violation("SHARED-LAYOUT", p, "args", "Cell::layout is called with width=%s wraps=%s (expected %s / %s)" % (args[2], args[3], e["width"], e["wraps"]), sites=[])
+        for site, args in sites:
+            ctx.instance("SHARED-LAYOUT", {"caller": p, "site": site if site != p else None, "args": [a[:70] for a in args], "expected_caller": e is not None})
+            if e is None:
+                ctx.violation("SHARED-LAYOUT", p, "caller", "Cell::layout is called from an unaudited place: measuring and writing may diverge", sites=[])
+                continue
+            if len(args) < 4 or not re.search(e["width"], args[2]) or not re.search(e["wraps"], args[3]):
+                ctx.violation("SHARED-LAYOUT", p, "args", "Cell::layout is called with width=%s wraps=%s (expected %s / %s)" % (args[2:3], args[3:4], e["width"], e["wraps"]), sites=[])
     for p in exp:
         if p not in callers:
             ctx.violation("SHARED-LAYOUT", p, "missing", "%s no longer calls Cell::layout: text measuring and text writing use different routines" % p, sites=[])
@@ -357,8 +560,10 @@ def run(ctx):
     ok_sw = False
     if sw is not None:
         rc = [(bb, t) for bb, t in sw.calls()]
-        ok_sw = len(rc) == 1 and call_matches(rc[0][1], r"^std::mem::replace$") and arg_place(sw, rc[0][1], 0) == "(*_1).wraps" and expr(sw, rc[0][1]["args"][1]) == "arg2" \
-            and not [x for x in writes_to_field(sw, r"\.wraps") if x[1] != "term"]
+        wr = [x for x in writes_to_field(sw, r"^\(\*_1\)\.wraps$") if x[1] != "term"]
+        # either mem::replace(&mut self.wraps, w) or `let old = self.wraps; self.wraps = w; old`
+        ok_sw = (len(rc) == 1 and call_matches(rc[0][1], r"^std::mem::(replace|swap)$") and arg_place(sw, rc[0][1], 0) == "(*_1).wraps" and expr(sw, rc[0][1]["args"][1]) == "arg2" and not wr) \
+            or (not rc and len(wr) == 1 and wr[0][3]["rv"]["k"] == "use" and expr(sw, wr[0][3]["rv"]["a"]) == "arg2")
     ctx.instance("WRAPS-AGREE", {"anchor": "TerminalWriter::set_wraps stores its argument in self.wraps", "ok": ok_sw})
     if not ok_sw:
         ctx.anchor("WRAPS-AGREE", "TerminalWriter::set_wraps")
@@ -367,10 +572,9 @@ def run(ctx):
     ctx.instance("WRAPS-AGREE", {"anchor": "Text::wraps() returns self.wraps (terms CellWrite::wraps(x) are read as x.wraps)", "ok": ok_tw})
     if not ok_tw:
         ctx.anchor("WRAPS-AGREE", "Text::wraps")
-    for lp, largs in sorted(callers.items()):
-        lb = prog.body(lp)
-        root = prog.body(lb.closure_root) if (lb is not None and lb.kind == "Closure") else lb
-        if root is None or root.impl_trait != "view::View" or root.name != "layout":
+    for lp, largs in sorted((p, args) for p, sites in callers.items() for site, args in sites):
+        root = prog.body(lp)
+        if root is None or root.impl_trait != "view::View" or root.name != "layout" or len(largs) < 4:
             continue
         rpath = re.sub(r"::layout$", "::render", root.path)
         rb = prog.body(rpath)
@@ -395,7 +599,7 @@ def run(ctx):
 
     # ---------------- (d) measuring a glyph fallback == writing it --------------------------------------------------
     ctx.rule("MEASURE-FALLBACK", "Cell::size measures a fallback glyph as the sum of the same per-character width that a single Char cell gets", floor=2)
-    cs = prog.body("render::Cell::size")
+    cs = prog.inlined("render::Cell::size") if prog.body("render::Cell::size") is not None else None
     if cs is None:
         ctx.anchor("MEASURE-FALLBACK", "Cell::size")
     else:
@@ -405,19 +609,42 @@ def run(ctx):
                 e = expr(cs, t["args"][1])
                 if "@Char.0" in e:
                     char_w = re.sub(r"arg1\.kind@Char\.0", "C", e)
-        sums = [(bb, t) for bb, t in cs.calls() if call_matches(t, r"Iterator::sum$")]
+        for i, si, s_ in cs.assigns():      # `Size { height: 1, width: .. }` literal
+            rv = s_["rv"]
+            if char_w is None and rv["k"] == "agg" and rv["ak"] == "adt" and rv["adt"] == "terminal::Size" and "width" in (rv.get("fnames") or []):
+                e = expr(cs, rv["fields"][rv["fnames"].index("width")])
+                if "@Char.0" in e and expr(cs, rv["fields"][rv["fnames"].index("height")]) == "1":
+                    char_w = re.sub(r"arg1\.kind@Char\.0", "C", e)
+        CHARS = r"str::chars\(Glyph::fallback_str\(arg1\.kind@Glyph\.0\)\)"
+
+        def _closure_ret(name, subst):
+            cb = prog.inlined("render::Cell::size::" + name) if prog.body("render::Cell::size::" + name) is not None else None
+            if cb is None:
+                return None
+            e = expr(cb, {"k": "copy", "place": {"l": 0, "p": []}})
+            return re.sub(r"\barg(\d)\b", lambda m: subst.get(m.group(0), m.group(0)), e)
+        # the fallback width is a sum over the fallback characters of a per-character term: chars().map(f).sum() or chars().fold(0, |acc, c| acc + f(c))
+        totals, cl_w, n_tot = [], None, 0
+        for bb, t in cs.calls():
+            if call_matches(t, r"Iterator::sum$"):
+                n_tot += 1
+                m = re.match(r"^Iterator::map\(" + CHARS + r", closure:(\{closure#\d+\})\[\]\)$", expr(cs, t["args"][0]))
+                if m:
+                    totals.append(_closure_ret(m.group(1), {"arg2": "C"}))
+            elif call_matches(t, r"Iterator::fold$") and len(t["args"]) == 3:
+                n_tot += 1
+                m = re.match(r"^closure:(\{closure#\d+\})\[\]$", expr(cs, t["args"][2]))
+                if m and re.match("^" + CHARS + "$", expr(cs, t["args"][0])) and expr(cs, t["args"][1]) == "0":
+                    r_ = _closure_ret(m.group(1), {"arg2": "ACC", "arg3": "C"}) or ""
+                    a = _app(r_)
+                    if a and a[0] == "Add" and a[2] == "" and len(a[1]) == 2 and "ACC" in a[1]:
+                        totals.append([x for x in a[1] if x != "ACC"][0] if a[1].count("ACC") == 1 else None)
         ok = False
-        cl_w = None
-        if char_w and len(sums) == 1:
-            e = expr(cs, sums[0][1]["args"][0])
-            m = re.match(r"^Iterator::map\(str::chars\(Glyph::fallback_str\(arg1\.kind@Glyph\.0\)\), closure:(\{closure#\d+\})\[\]\)$", e)
-            if m:
-                cb = prog.body("render::Cell::size::" + m.group(1))
-                if cb is not None:
-                    cl_w = re.sub(r"\barg2\b", "C", expr(cb, {"k": "copy", "place": {"l": 0, "p": []}}))
-                    ok = cl_w == char_w
+        if char_w and n_tot == 1 and len(totals) == 1 and totals[0]:
+            cl_w = totals[0]
+            ok = cl_w == char_w
         ctx.instance("MEASURE-FALLBACK", {"char_width": char_w, "fallback_per_char_width": cl_w, "agree": ok})
-        ctx.instance("MEASURE-FALLBACK", {"fallback_is_sum_over_chars": len(sums) == 1})
+        ctx.instance("MEASURE-FALLBACK", {"fallback_is_sum_over_chars": n_tot == 1 and len(totals) == 1})
         if not ok:
             ctx.violation("MEASURE-FALLBACK", cs.path, "fallback-width", "a glyph without glyph support is measured differently from how its fallback characters are written one by one (char width %s vs per-char %s): layout and render disagree for wide/zero-width characters" % (char_w, cl_w), sites=[cs.loc])
 
@@ -428,27 +655,31 @@ def run(ctx):
         gm = [(bb, t) for bb, t in pc.calls() if call_matches(t, r"SurfaceMut::get_mut$")]
         none_edge = None
         if len(gm) == 1:
-            nb = gm[0][1]["t"]
-            tt = pc.blocks[nb]["term"]
-            if tt["k"] == "switch":
-                if "0" in tt["vals"]:
-                    none_edge = (nb, tt["targets"][tt["vals"].index("0")])
-                elif tt["vals"] == ["1"]:
-                    none_edge = (nb, tt["otherwise"])
-        falses = []
-        others = []
-        for i, si, s_ in pc.assigns():
-            if s_["place"]["l"] == 0 and not s_["place"]["p"]:
-                if s_["rv"]["k"] == "use" and s_["rv"]["a"]["k"] == "const":
-                    if s_["rv"]["a"]["c"].get("int") == "0":
-                        falses.append((i, s_))
-                else:
-                    others.append((i, s_))
-        for bb, t in pc.calls():
-            if t["dest"]["l"] == 0 and not t["dest"]["p"]:
-                others.append((bb, t))
-        ok = none_edge is not None and bool(falses) and all(cfg.edge_dominates(none_edge[0], none_edge[1], i) for i, _ in falses)
-        ok_other = all((x.get("k") == "call" and call_matches(x, r"Iterator::all$")) for i, x in others)
+            # the branch on the discriminant of get_mut's result (wherever it is placed): its None edge
+            for nb, tt in pc.terms():
+                if tt["k"] == "switch" and not pc.blocks[nb]["cleanup"] and cfg.dominates(gm[0][0], nb) \
+                        and re.fullmatch(r"discr\(SurfaceMut::get_mut\(arg1\.surf, .*\)\)", expr(pc, tt["d"])):
+                    if "0" in tt["vals"]:
+                        none_edge = (nb, tt["targets"][tt["vals"].index("0")])
+                    elif tt["vals"] == ["1"]:
+                        none_edge = (nb, tt["otherwise"])
+                    break
+        falses, others, opaque = [], [], []
+        for kind, i, x in _ret_sources(pc):
+            if kind == "const":
+                if x == 0:
+                    falses.append((i, x))
+            elif kind == "call":
+                others.append((i, x))
+            else:
+                opaque.append((i, x))
+        # `self.surf.get_mut(pos).map(..).is_some()`-style returns: false exactly when get_mut found no cell
+        def _from_get_mut(t):
+            return call_matches(t, r"Option::<T>::(is_some|is_some_and)$") and len(gm) == 1 and \
+                re.match(r"^(Option::map\()*SurfaceMut::get_mut\(arg1\.surf, ", expr(pc, t["args"][0])) is not None
+        ok = (not falses or none_edge is not None) and all(cfg.edge_dominates(none_edge[0], none_edge[1], i) for i, _ in falses) \
+            and (bool(falses) or any(_from_get_mut(x) for i, x in others)) and not opaque
+        ok_other = all(call_matches(x, r"Iterator::all$") or _from_get_mut(x) for i, x in others)
         ctx.instance("SINK-FULL", {"false_returns": len(falses), "on_get_mut_none_edge": ok, "other_non_constant_returns": len(others), "only_recursive_fallback": ok_other})
         if not (ok and ok_other):
             ctx.violation("SINK-FULL", pc.path, "false-return", "put_cell can report `false` (sink full: the io::Write adapters then discard the rest of the buffer) on a path where the surface is not exhausted", sites=[pc.loc])
